@@ -25,9 +25,11 @@ import (
 	"github.com/cosmos/cosmos-sdk/crypto/keys/ed25519"
 	"github.com/cosmos/cosmos-sdk/crypto/keys/secp256k1"
 	"github.com/cosmos/cosmos-sdk/simapp"
+	"github.com/cosmos/cosmos-sdk/simapp/helpers"
 	sdk "github.com/cosmos/cosmos-sdk/types"
 	authtypes "github.com/cosmos/cosmos-sdk/x/auth/types"
 	banktypes "github.com/cosmos/cosmos-sdk/x/bank/types"
+	minttypes "github.com/cosmos/cosmos-sdk/x/mint/types"
 	"github.com/cosmos/cosmos-sdk/x/staking"
 	stakingtypes "github.com/cosmos/cosmos-sdk/x/staking/types"
 	"github.com/ignite/cli/ignite/pkg/cosmoscmd"
@@ -36,6 +38,7 @@ import (
 	tmproto "github.com/tendermint/tendermint/proto/tendermint/types"
 	tmtypes "github.com/tendermint/tendermint/types"
 	dbm "github.com/tendermint/tm-db"
+	"math/rand"
 )
 
 const (
@@ -104,6 +107,7 @@ type Chain struct {
 	Vals    []*Validator
 	names   map[string]string // concrete -> name (addresses, dids, validators, data ids, commits)
 	concr   map[string]string // name -> concrete
+	ABCI    bool              // drive through the real ABCI calls (signed DeliverTx, EndBlock, Commit, BeginBlock of ALL modules)
 	Halted  string            // non-empty once a blocker panicked/hung
 	Timeout time.Duration
 	encCfg  cosmoscmd.EncodingConfig
@@ -251,6 +255,15 @@ func (c *Chain) genesisState() ([]byte, error) {
 	sp.BondDenom = Denom
 	gs[stakingtypes.ModuleName] = enc.Marshaler.MustMarshalJSON(stakingtypes.NewGenesisState(sp, validators, delegations))
 	gs[banktypes.ModuleName] = enc.Marshaler.MustMarshalJSON(banktypes.NewGenesisState(banktypes.DefaultGenesisState().Params, balances, total, []banktypes.Metadata{}))
+	// x/mint: no inflation, so that in ABCI mode the supply only moves by the storage reward (x/mint is not a storage module)
+	mg := minttypes.DefaultGenesisState()
+	mg.Minter.Inflation = sdk.ZeroDec()
+	mg.Minter.AnnualProvisions = sdk.ZeroDec()
+	mg.Params.MintDenom = Denom
+	mg.Params.InflationMax = sdk.ZeroDec()
+	mg.Params.InflationMin = sdk.ZeroDec()
+	mg.Params.InflationRateChange = sdk.ZeroDec()
+	gs[minttypes.ModuleName] = enc.Marshaler.MustMarshalJSON(mg)
 	// node genesis: one coherent denom
 	ng := nodetypes.DefaultGenesis()
 	ng.Pool.TotalPledged = sdk.NewInt64Coin(Denom, 0)
@@ -296,7 +309,7 @@ func New(cfg Config) (*Chain, error) {
 		return nil, err
 	}
 	valUpdates := []abci.ValidatorUpdate{}
-	a.InitChain(abci.RequestInitChain{ChainId: ChainID, Validators: valUpdates, ConsensusParams: simapp.DefaultConsensusParams, AppStateBytes: stateBytes})
+	a.InitChain(abci.RequestInitChain{ChainId: ChainID, Validators: valUpdates, ConsensusParams: consensusParams(), AppStateBytes: stateBytes})
 	c.H = 1
 	hdr := c.header(1)
 	a.BeginBlock(abci.RequestBeginBlock{Header: hdr})
@@ -410,6 +423,9 @@ func (c *Chain) Deliver(msg sdk.Msg) TxResult {
 	if c.Halted != "" {
 		return TxResult{Result: "err", Err: "chain halted"}
 	}
+	if c.ABCI {
+		return c.deliverABCI(msg)
+	}
 	h := c.App.MsgServiceRouter().Handler(msg)
 	if h == nil {
 		return TxResult{Result: "err", Err: "no handler"}
@@ -453,6 +469,9 @@ func (c *Chain) Deliver(msg sdk.Msg) TxResult {
 func (c *Chain) EndAndBegin(withStaking bool) (string, string, string) {
 	if c.Halted != "" {
 		return "PANIC", "halted", c.Halted
+	}
+	if c.ABCI {
+		return c.endAndBeginABCI()
 	}
 	phase := ""
 	r, pm := c.guarded(func() {
@@ -546,4 +565,95 @@ func (c *Chain) SpecConfig() map[string]interface{} {
 		"offlineTrigger": c.Cfg.OfflineTrigger, "salt": c.Cfg.Salt, "seedMode": c.Cfg.SeedMode,
 		"fishmen": c.Cfg.Fishmen, "maxPenalty": c.Cfg.MaxPenalty,
 	}
+}
+
+// ---------------------------------------------------------------------------
+// ABCI mode: the same events, but through the real ABCI boundary of the application:
+// signed transactions via DeliverTx (ante handler, gas, baseapp's own rollback and panic
+// recovery) and EndBlock / Commit / BeginBlock of the whole module manager in app.go's order.
+// The header's AppHash is the harness's synthetic seed (baseapp does not validate it), so the
+// specification's RandomSP can follow.
+
+func NewABCI(cfg Config) (*Chain, error) {
+	c, err := New(cfg)
+	if err != nil {
+		return nil, err
+	}
+	c.ABCI = true
+	return c, nil
+}
+
+func (c *Chain) signerOf(msg sdk.Msg) *Account {
+	signers := msg.GetSigners()
+	if len(signers) == 0 {
+		return nil
+	}
+	return c.Acc(c.Name(signers[0].String()))
+}
+
+func (c *Chain) deliverABCI(msg sdk.Msg) TxResult {
+	acc := c.signerOf(msg)
+	if acc == nil {
+		return TxResult{Result: "err", Err: "unknown signer"}
+	}
+	var num, seq uint64
+	if a := c.App.AccountKeeper.GetAccount(c.Ctx, acc.Addr); a != nil {
+		num, seq = a.GetAccountNumber(), a.GetSequence()
+	}
+	tx, err := helpers.GenSignedMockTx(rand.New(rand.NewSource(int64(seq)+7)), c.encCfg.TxConfig, []sdk.Msg{msg}, sdk.NewCoins(), 50_000_000, ChainID, []uint64{num}, []uint64{seq}, acc.Priv)
+	if err != nil {
+		return TxResult{Result: "err", Err: "sign: " + err.Error()}
+	}
+	bz, err := c.encCfg.TxConfig.TxEncoder()(tx)
+	if err != nil {
+		return TxResult{Result: "err", Err: "encode: " + err.Error()}
+	}
+	var rd abci.ResponseDeliverTx
+	r, pm := c.guarded(func() { rd = c.App.DeliverTx(abci.RequestDeliverTx{Tx: bz}) })
+	c.Ctx = c.App.BaseApp.NewContext(false, c.header(c.H))
+	switch r {
+	case "HANG":
+		c.Halted = "HANG in tx"
+		return TxResult{Result: "HANG"}
+	case "PANIC":
+		c.Halted = "PANIC escaped DeliverTx: " + pm
+		return TxResult{Result: "PANIC", Err: pm}
+	}
+	if rd.Code != 0 {
+		return TxResult{Result: "err", Err: rd.Log, Code: rd.Code, Space: rd.Codespace, Panic: strings.Contains(rd.Log, "panic")}
+	}
+	out := TxResult{Result: "ok"}
+	var md sdk.TxMsgData
+	if err := md.Unmarshal(rd.Data); err == nil && len(md.MsgResponses) > 0 {
+		out.Resp = &sdk.Result{Data: md.MsgResponses[0].Value}
+	}
+	return out
+}
+
+func (c *Chain) endAndBeginABCI() (string, string, string) {
+	phase := ""
+	r, pm := c.guarded(func() {
+		phase = "end"
+		c.App.EndBlock(abci.RequestEndBlock{Height: c.H})
+		phase = "commit"
+		c.App.Commit()
+		phase = "begin"
+		c.H++
+		hdr := c.header(c.H)
+		c.App.BeginBlock(abci.RequestBeginBlock{Header: hdr})
+		c.Ctx = c.App.BaseApp.NewContext(false, hdr)
+	})
+	if r != "ok" {
+		c.Halted = r + " in " + phase + ": " + pm
+	}
+	return r, phase, pm
+}
+
+// consensusParams: simapp's defaults with an unlimited block gas (traces put many transactions into one block).
+func consensusParams() *abci.ConsensusParams {
+	cp := *simapp.DefaultConsensusParams
+	blk := *cp.Block
+	blk.MaxGas = -1
+	cp.Block = &blk
+	return &cp
 }
